@@ -32,7 +32,7 @@ def check(run):
         F = run.facts(cfg)
         # helpers this property stands on (rule sets owned by other properties, see common.deps)
         from common import deps as _deps
-        _deps(run, F, 'isnone', 'accessors')
+        _deps(run, F, 'isnone', 'accessors', 'wrappers', 'fast_paths')
         ks = find_kernels(F)
         run.floor('C06', 'rolling entry points', len(ks), 38 if cfg == 'full' else 36)
         nidx = 0
